@@ -25,12 +25,11 @@ OUTSIDE = ['HTTP routing and status line', 'init-segment route (no time-dependen
            'BaseURL/template string assembly (C07)', 'layouts outside the catalogue']
 
 Q_PAIRS = [('bbb_v7', 'bbb_v7'), ('bbb_a1', 'bbb_v7'), ('bbb_t1', 'bbb_v7'), ('syn_short_last', 'syn_short_last')]
-T_PAIRS = Q_PAIRS + [('bbb_a2', 'bbb_v7'), ('tears_a1', 'tears_v1'), ('tears_v1', 'tears_v1'),
-                     ('syn_long_first', 'syn_long_first'), ('syn_two', 'syn_two'), ('syn_sn0', 'syn_sn0'),
-                     ('syn_sn7', 'syn_sn7'), ('syn_st', 'syn_st'), ('syn_10mhz', 'syn_10mhz'),
-                     ('syn_irregular', 'syn_irregular'), ('syn_1hz', 'syn_1hz'), ('bbb_v7', 'bbb_a1')]
+# thorough catalogue sized by wall time (the full 16 x 8 product with depth 120 ran past 75 minutes)
+T_PAIRS = Q_PAIRS + [('tears_v1', 'tears_v1'), ('syn_long_first', 'syn_long_first'), ('syn_sn0', 'syn_sn0'),
+                     ('syn_st', 'syn_st'), ('syn_10mhz', 'syn_10mhz'), ('syn_irregular', 'syn_irregular')]
 Q_BASES = ['65s', '1h', '1d-20s', '1y', '54y']
-T_BASES = list(tk.BASES) + ['x32']
+T_BASES = Q_BASES + ['10min', 'x32']
 
 LEEWAY_MIN = 0     # obligations are stated for every leeway >= LEEWAY_MIN
 
@@ -40,7 +39,7 @@ def bounds(tier):
         'pairs(rep,reference)': Q_PAIRS if tier == 'quick' else T_PAIRS,
         'base_instants': Q_BASES if tier == 'quick' else T_BASES,
         'clock_window': 'two loops of the reference (every microsecond phase)',
-        'timeline_depth_s': [1, 30] if tier == 'quick' else [1, 120],
+        'timeline_depth_s': [1, 30] if tier == 'quick' else [1, 60],
         'number_depth_s': [0, 1800],
         'leeway_s': 'None or [0, 120]',
     }
@@ -163,7 +162,7 @@ def h_number(sx, rep_name, ref_name, base, depth_max, leeway_mode):
 def instances(tier):
     pairs = Q_PAIRS if tier == 'quick' else T_PAIRS
     bases = Q_BASES if tier == 'quick' else T_BASES
-    tdepth = 30 if tier == 'quick' else 120
+    tdepth = 30 if tier == 'quick' else 60
     out = []
     for rep_name, ref_name in pairs:
         for base in bases:
